@@ -13,6 +13,8 @@
 (*   RD   {d, max, min, len, match, closed}   read() returned len bytes    *)
 (*   KW / KR {d}            write / read connection state replaced         *)
 (*   A    {op, d, i, p}     adversary operation applied by the harness     *)
+(*   TRY  {d, items, outs}  receiver shown items, state restored afterwards*)
+(*   FATAL{d, closed, resumable, alertLevel, alertDesc, delivered}         *)
 (***************************************************************************)
 EXTENDS Record, Json, IOUtils, TLCExt
 
@@ -59,7 +61,8 @@ TW  == IsEvent("W")  /\ BeginWrite(E.d, E.n)
 TS  == IsEvent("S")  /\ SeqMatchesW /\ InnerOK
                      /\ IF E.ct = APP THEN SendApp(E.d, E.plen) ELSE SendCtl(E.d, E.ct, E.plen)
 TWE == IsEvent("WE") /\ EndWrite(E.d)
-TR  == IsEvent("R")  /\ SeqMatchesR /\ Accept(E.d) /\ AcceptedMatchesLog
+TR  == IsEvent("R")  /\ \/ SeqMatchesR /\ Accept(E.d) /\ AcceptedMatchesLog
+                        \/ E.ct = CCS /\ PassPlainCCSAfterHandshake(E.d)
 TRE == IsEvent("RE") /\ Reject(E.d)
 TRD == IsEvent("RD") /\ ReadBounds /\ Read(E.d, E.len)
 TKW == IsEvent("KW") /\ KeyChangeW(E.d)
@@ -71,9 +74,16 @@ TA  == IsEvent("A")  /\ natk' = natk + 1 /\ AtkFrame
                           [] E.op = "swap"    -> AtkSwapAt(E.d, E.i)
                           [] E.op = "reflect" -> AtkReflectAt(E.d, E.i, E.p)
                           [] E.op = "old"     -> AtkOldAt(E.d, E.i, E.p)
+                          [] E.op = "ccs"     -> AtkCCSAt(E.d, E.p)
+                          [] E.op = "forge"   -> AtkForgeAt(E.d, E.p)
                           [] OTHER -> FALSE
 
-TraceStep == TW \/ TS \/ TWE \/ TR \/ TRE \/ TRD \/ TKW \/ TKR \/ TA
+\* TRY {d, items: [[k, idx, dir]...], outs: ["acc"|"rej"...]}  hypothetical presentation
+Items(e) == [j \in 1..Len(e.items) |-> [k |-> e.items[j][1], idx |-> e.items[j][2], dir |-> e.items[j][3]]]
+TTRY == IsEvent("TRY") /\ Try(E.d, Items(E), E.outs)
+\* FATAL {d, closed, resumable, alertLevel, alertDesc, delivered}  API-level observation after RE
+TFATAL == IsEvent("FATAL") /\ FatalObserved(E.d, E)
+TraceStep == TTRY \/ TFATAL \/ TW \/ TS \/ TWE \/ TR \/ TRE \/ TRD \/ TKW \/ TKR \/ TA
 \* every invariant of Record.tla is evaluated in every state of every trace: a step
 \* into a state that violates one is not a behaviour of the specification
 InvAll == AcceptOnlyGenuineNext /\ DeliveredIsPrefix /\ NoOverLimit /\ FragSound
